@@ -22,6 +22,7 @@ func init() {
 	register("CLN-5", "no shared mutable state (package-level variables) on concurrent paths", 4, ruleCLN5)
 	register("CLN-6", "self-check gates the result of NewKnowledgeBaseInstance", 1, ruleCLN6)
 	register("CLN-7", "clone-table discipline: lookup before clone, mark after clone, for every child", 20, ruleCLN7)
+	register("CLN-8", "clone table integrity: IsCloned looks up what MarkCloned records, and the record holds the clone", 2, ruleCLN8)
 }
 
 // ---------- fixture for positive controls ----------
@@ -736,4 +737,52 @@ func sameChild(a, b ssa.Value) bool {
 		return true
 	}
 	return false
+}
+
+// CLN-8: the two functions every Clone relies on.
+func ruleCLN8(c *Ctx) {
+	p := c.P
+	isCloned := p.Method("pkg", "CloneTable", "IsCloned")
+	mark := p.Method("pkg", "CloneTable", "MarkCloned")
+	rec := p.Field("pkg", "CloneTable", "Records")
+	if isCloned == nil || mark == nil || rec == nil {
+		c.AnchorLost("pkg.CloneTable")
+		return
+	}
+	c.Check(lookupWrapper(isCloned) == rec, "CloneTable.IsCloned / reports presence of its argument in Records", p.Pos(isCloned.Pos()), "comma-ok lookup of the parameter in Records", "IsCloned does not answer `is this id recorded`: nodes are cloned twice or reuse never happens")
+	ok := false
+	why := "no update of Records"
+	for _, b := range mark.Blocks {
+		for _, in := range b.Instrs {
+			mu, isMU := in.(*ssa.MapUpdate)
+			if !isMU {
+				continue
+			}
+			if f, base := fieldLoad(mu.Map); f != rec || base != ssa.Value(receiver(mark)) {
+				continue
+			}
+			keyOK := len(mark.Params) == 5 && mu.Key == ssa.Value(mark.Params[1])
+			al, isAlloc := mu.Value.(*ssa.Alloc)
+			instOK := false
+			if isAlloc {
+				for _, r := range *al.Referrers() {
+					fa, isFA := r.(*ssa.FieldAddr)
+					if !isFA || fieldOfAddr(fa).Name() != "CloneInstance" {
+						continue
+					}
+					for _, rr := range *fa.Referrers() {
+						if st, isSt := rr.(*ssa.Store); isSt && len(mark.Params) == 5 && st.Val == ssa.Value(mark.Params[4]) {
+							instOK = true
+						}
+					}
+				}
+			}
+			if keyOK && instOK {
+				ok = true
+			} else {
+				why = fmt.Sprintf("keyedByOriginID=%v cloneInstanceIsTheCloneArgument=%v", keyOK, instOK)
+			}
+		}
+	}
+	c.Check(ok, "CloneTable.MarkCloned / records the clone under the origin's id", p.Pos(mark.Pos()), "Records[originAst] = &CloneRecord{CloneInstance: clone}", "MarkCloned records something else ("+why+"): every later reuse from the clone table hands out the wrong instance (e.g. the origin itself)")
 }
